@@ -376,6 +376,8 @@ func checkC08(c *Ctx) {
 	c08members(c)
 	c08pipeModel(c, "C08.R2", "", "")
 	c08coneModel(c, "C08.R5")
+	premiseEqual(c, "C08.R8", "a transformation between references that Equal wrongly holds equal is the identity, and inverse(forward(p)) then goes wrong silently")
+	c.Floor("C08.R8", 9)
 	c.Floor("C08.R5", 3)
 	c.Floor("C08.R1", 32)
 	c.Floor("C08.R2", 4)
